@@ -10,7 +10,7 @@
    out-/in-lists are permutations, every element's key-value list is a permutation, the alias maps
    agree in both directions, every index key is present in both with permuted (value,id) lists. *)
 From Agdb Require Import Bytes DbValue Graph DbModel Search Queries Revisions UndoBase UndoObs UndoWitness
-  UndoKv UndoGraph UndoDb UndoStepsKv UndoStepsKv2 UndoMain UndoFinal UndoLift UndoLiftEx.
+  UndoKv UndoGraph UndoDb UndoStepsKv UndoStepsKv2 UndoMain UndoFinal UndoLift UndoLiftEx UndoRemoveNode UndoRemoveNode2.
 From Coq Require Import Permutation.
 Open Scope Z_scope.
 
@@ -78,6 +78,20 @@ Theorem C13_rollback_restores :
       db_ok d'.
 Proof. exact rollback_restores_obs. Qed.
 Print Assumptions C13_rollback_restores.
+
+(* remove_node_db (alias removal; for every edge of the node remove_edge_db + remove_all_values; then
+   the node, which is isolated by then) is a sequence of these primitives, so both theorems above
+   apply to it: same side condition (the indexed properties of the node's edges are listed in
+   their indexes), the alias given is the node's alias. *)
+Theorem C13_step_inverse_remove_node_db :
+  forall rv, fix_rollback_replace rv = true -> fix_alias_steal_undo rv = true ->
+  forall d n alias,
+    db_ok d -> 0 < n -> is_node (gr d) n = true ->
+    match alias with Some a => imap_value (aliases d) a = Some n | None => True end ->
+    (forall x, In x (node_edges d n) -> idx_has_all d (fst (fst x))) ->
+    exists d1, remove_node_db d n alias = (d1, None) /\ psteps rv d d1 /\ capacity (gr d1) = capacity (gr d).
+Proof. exact remove_node_db_psteps. Qed.
+Print Assumptions C13_step_inverse_remove_node_db.
 
 (* non-vacuity: the empty database is well formed; a concrete 7-step history (2 nodes, an edge, an
    alias, a property, the edge removed, the property replaced) satisfies the hypotheses; a concrete
